@@ -325,30 +325,39 @@ def sources_digest(proj_abs):
     return h.hexdigest()
 
 
+class ScenarioError(Exception):
+    """The world of a scenario could not be constructed (generator fault, not an observation)."""
+
+
 def execute(sc):
     try:
         with vlib.Sandbox("c16") as sb:
             return execute_in(sb, sc)
+    except ScenarioError as e:
+        return {"machinery_error": "%s: %s" % (sc.get("name"), e)}
     except Exception as e:                                   # reported per scenario, never silently dropped
         import traceback
         return {"error": "%s\n%s" % (e, traceback.format_exc()[-1500:])}
 
 
 def execute_in(sb, sc):
-    world = sb.path("w")
-    os.makedirs(world)
-    cwd_abs = os.path.join(world, sc["cwd"])
-    os.makedirs(cwd_abs, exist_ok=True)
-    src_dir = os.path.join(world, sc["proj_dir"], "src")
-    if not sc.get("no_project_dir"):
-        os.makedirs(src_dir, exist_ok=True)
-    for d in sc.get("dirs", []):
-        os.makedirs(os.path.join(world, d), exist_ok=True)
-    for rel, text in sc.get("files", {}).items():
-        p = os.path.join(world, rel)
-        os.makedirs(os.path.dirname(p), exist_ok=True)
-        with open(p, "w", encoding="utf-8") as f:
-            f.write(sub(world, text))
+    try:
+        world = sb.path("w")
+        os.makedirs(world)
+        cwd_abs = os.path.join(world, sc["cwd"])
+        os.makedirs(cwd_abs, exist_ok=True)
+        src_dir = os.path.join(world, sc["proj_dir"], "src")
+        if not sc.get("no_project_dir"):
+            os.makedirs(src_dir, exist_ok=True)
+        for d in sc.get("dirs", []):
+            os.makedirs(os.path.join(world, d), exist_ok=True)
+        for rel, text in sc.get("files", {}).items():
+            p = os.path.join(world, rel)
+            os.makedirs(os.path.dirname(p), exist_ok=True)
+            with open(p, "w", encoding="utf-8") as f:
+                f.write(sub(world, text))
+    except OSError as e:
+        raise ScenarioError(str(e))
     variant = None
     refs = {}
     steps = []
@@ -650,10 +659,12 @@ def malformed_scenarios(rng, count):
                     {"entry": "init", "variant": None, "args": {"p": p, "g": o, "o": "typegen.json", "force": True, "v": "zod"}},
                     {"entry": "build", "variant": None, "args": {}}]
         elif kind == "typecache-dir":
+            files.pop("app/gen/.typecache", None)
             dirs.append("app/gen/.typecache")
             files["app/gen/.typecache/x"] = "inside"
             files["app/tauri.conf.json"] = tauri_conf(p, o)
         elif kind == "probe-dir":
+            files.pop("app/gen/.write_test", None)
             dirs.append("app/gen/.write_test")
             files["app/gen/.write_test/x"] = "inside"
             files["app/tauri.conf.json"] = tauri_conf(p, o)
